@@ -34,12 +34,14 @@ pub open spec fn field_post(f: Field, r: Field) -> bool {
 }
 impl VNode for Field {
     open spec fn key(&self) -> NodeKey { NodeKey::Field(other_key(*self)) }
+    open spec fn line_open(&self) -> bool { other_line_open(*self) }
     #[verifier::external_body] fn start_position(&self) -> (r: Option<Position>) { unimplemented!() }
     #[verifier::external_body] fn end_position(&self) -> (r: Option<Position>) { unimplemented!() }
     #[verifier::external_body] fn leading_trivia_vec(&self) -> (r: Vec<&Token>) { unimplemented!() }
 }
 impl VNode for ContainedSpan {
     open spec fn key(&self) -> NodeKey { NodeKey::Other(other_key(*self)) }
+    open spec fn line_open(&self) -> bool { other_line_open(*self) }
     #[verifier::external_body] fn start_position(&self) -> (r: Option<Position>) { unimplemented!() }
     #[verifier::external_body] fn end_position(&self) -> (r: Option<Position>) { unimplemented!() }
     #[verifier::external_body] fn leading_trivia_vec(&self) -> (r: Vec<&Token>) { unimplemented!() }
